@@ -2200,3 +2200,25 @@ def future_exception_guard(check: Check, repo: Repo, mods: list[Module], rule: s
                          f"a cancelled `{f}` makes this call raise CancelledError: the outcome of the task is never recorded"))
     if n < 2:
         raise AnalysisError("FUTURE-EXCEPTION-GUARD: .exception() calls not found")
+
+
+def leaf_always_coerced(check: Check, repo: Repo, rule: str = "LEAF-COERCED") -> None:
+    check.rule(
+        rule,
+        "Executor.complete_leaf_value hands nothing to the response that did not go through the leaf type's result "
+        "coercion: every normal path from the entry to a return passes the call `<type>.coerce_output_value(<result>)`. "
+        "A shortcut for values that 'already have the right Python type' skips what the coercion checks beyond the type - "
+        "an int outside the signed 32-bit range for Int, inf / nan for Float - where the specification requires a field "
+        "error and null propagation",
+    )
+    fn = repo.func("execution.executor", "Executor.complete_leaf_value")
+    cfg = CFG(fn)
+    calls = [c for c in walk_body(fn) if isinstance(c, ast.Call) and isinstance(c.func, ast.Attribute) and c.func.attr in ("coerce_output_value", "serialize")]
+    if not calls:
+        check.ob(rule, fn, "complete_leaf_value coerces the result", False, "no coerce_output_value(...) call")
+        return
+    nodes = {n for c in calls for n in cfg.node_for_expr(c)}
+    rets = {n for r in walk_body(fn) if isinstance(r, ast.Return) for n in cfg.nodes_of(r)}
+    path = cfg.find_path(cfg.entry, lambda nd: nd in rets, follow=no_exc, avoid=lambda nd: nd in nodes)
+    check.ob(rule, calls[0], "complete_leaf_value: every returned value was coerced by the leaf type", path is None,
+             "the coercion call is on every path to a return" if path is None else "a value is returned uncoerced: " + cfg.describe_path(path)[-200:])
